@@ -595,7 +595,7 @@ func runC10R4(c *Ctx, rule string) {
 		n := 0
 		bad := false
 		c.Walk(rule, fn, func(p *walk.Path) {
-			for _, sc := range p.FindTop(walk.Static(setCookie), p.End()) {
+			for _, sc := range p.Find(walk.Static(setCookie), p.End()) { // all frames: the expiry may sit in an extracted helper
 				n++
 				mc, ok := extractOfCall(p, p.Arg(sc, 1), 0)
 				if !ok || mc.C.StaticCallee() != mkCookie {
